@@ -230,6 +230,7 @@ pub fn compare(file: &str, got: &Result<Vec<Rule>, ParseError>, want: &RefResult
 
 pub fn check_text(text: &str) -> Option<String>
 {
+    let _w = crate::watch::item(|| (format!("parsing the text {:?}", text), json!({"engine": "parse", "text": text})));
     let t = text.to_string();
     let got = match std::panic::catch_unwind(move || rule::parse("f.rules".to_string(), t))
     {
@@ -242,6 +243,7 @@ pub fn check_text(text: &str) -> Option<String>
 /// parse_all over two files: concatenation at rule level, errors name the right file
 pub fn check_split(a: &str, b: &str) -> Option<String>
 {
+    let _w = crate::watch::item(|| (format!("parsing the two files {:?} and {:?}", a, b), json!({"engine": "parse", "text": format!("{}<<<FILE-BOUNDARY>>>{}", a, b)})));
     let (a2, b2) = (a.to_string(), b.to_string());
     let got = match std::panic::catch_unwind(move || rule::parse_all(vec![("one.rules".to_string(), a2), ("two.rules".to_string(), b2)]))
     {
@@ -406,7 +408,8 @@ pub fn run(rep: &mut Report, tier: &str)
     // (repeated directories that agree or differ at any level), wrapped into a complete rule
     let mut sections = 0u64;
     {
-        const BT: [&str; 6] = ["a", "b", "\ta", "\tb", "\t\ta", "\t\tb"];
+        // "a/b": a directory line that itself contains a separator
+        const BT: [&str; 8] = ["a", "b", "\ta", "\tb", "\t\ta", "\t\tb", "a/b", "\ta/b"];
         let max_sec = if thorough { 8 } else { 7 };
         for len in 1..=max_sec
         {
@@ -431,7 +434,7 @@ pub fn run(rep: &mut Report, tier: &str)
                         {
                             let mut kk = k;
                             let mut lines: Vec<&str> = vec![];
-                            for _ in 0..len { lines.push(BT[(kk % 6) as usize]); kk /= 6; }
+                            for _ in 0..len { lines.push(BT[(kk % BT.len() as u64) as usize]); kk /= BT.len() as u64; }
                             let text = format!("{}\n:\ns\n:\nc\n:\n", lines.join("\n"));
                             cnt.fetch_add(1, Ordering::Relaxed);
                             if let Some(msg) = check_text(&text) { record(&found, format!("bundle section: {}", msg), &text); }
